@@ -572,6 +572,7 @@ func c02GlobalFilterWiring(c *core.Ctx, a *c02Anchors) {
 	if hBefore == nil || hAfter == nil {
 		return
 	}
+	c02GlobalFilterBuild(c, fb, fa, hBefore, hAfter)
 	// the handler with two *Pipeline parameters and its call sites
 	var handler *types.Func
 	var pidx []int
@@ -1150,4 +1151,200 @@ func c02CallerFields(c *core.Ctx, a *c02Anchors, cl *c02Caller, flowIdx int) int
 		"the handler returns the result field of the run state every flow run writes",
 		"the handler does not return the result field of the run state the flows were run on", exw(badRet)...)
 	return len(pparams)
+}
+
+// c02GlobalFilterBuild: the before and the after pipeline are built independently of each other.
+// In the function that (re)builds both holders, every returning exit has stored the after pipeline
+// unless the after flow was found empty, and the before pipeline unless the before flow was found
+// empty (paths that panic reject the generation and are not exits).
+func c02GlobalFilterBuild(c *core.Ctx, fb, fa, hBefore, hAfter *types.Var) {
+	fFlow := c02FieldByYAML(c, c02pl, "Spec", "flow")
+	if fFlow == nil {
+		return
+	}
+	isStore := func(g *flow.Func, d *c02Defs, call *ast.CallExpr) *types.Var {
+		sel, ok := ast.Unparen(call.Fun).(*ast.SelectorExpr)
+		if !ok || sel.Sel.Name != "Store" {
+			return nil
+		}
+		fo, ok := g.Info.Uses[sel.Sel].(*types.Func)
+		if !ok || fo.Pkg() == nil || fo.Pkg().Path() != "sync/atomic" {
+			return nil
+		}
+		for _, h := range []*types.Var{hBefore, hAfter} {
+			if _, ok := d.fieldSel(sel.X, h); ok {
+				return h
+			}
+		}
+		return nil
+	}
+	// the builders: minimal functions whose reach stores both holders
+	storesBoth := func(g *flow.Func) bool {
+		seen := map[*types.Var]bool{}
+		for _, x := range reach(g, 3) {
+			xd := c02NewDefs(x)
+			for _, call := range calls(x.Body, true) {
+				if h := isStore(x, xd, call); h != nil {
+					seen[h] = true
+				}
+			}
+		}
+		return seen[hBefore] && seen[hAfter]
+	}
+	cands := funcsByRole(c, c02gf, func(g *flow.Func, fd *ast.FuncDecl) bool { return storesBoth(g) })
+	var builders []*flow.Func
+	for _, g := range cands {
+		minimal := true
+		for _, x := range reach(g, 3)[1:] {
+			if storesBoth(x) {
+				minimal = false
+			}
+		}
+		if minimal {
+			builders = append(builders, g)
+		}
+	}
+	if !c.RequireCount("R-C02-5", "functions building both global-filter pipelines", len(builders), 1) {
+		return
+	}
+	for _, f := range builders {
+		fd := f.Node.(*ast.FuncDecl)
+		cons := declName(f.Pkg, fd)
+		d := c02ReachDefs(f, 3)
+		// fields mentioned by an expression, aliases (helper parameters, locals) resolved
+		var fieldsIn func(e ast.Expr, depth int, out map[types.Object]bool)
+		fieldsIn = func(e ast.Expr, depth int, out map[types.Object]bool) {
+			if depth > 6 {
+				return
+			}
+			ast.Inspect(e, func(n ast.Node) bool {
+				switch x := n.(type) {
+				case *ast.SelectorExpr:
+					if sl := f.Info.Selections[x]; sl != nil {
+						out[sl.Obj()] = true
+					}
+				case *ast.Ident:
+					if al := d.alias(x); al != ast.Expr(x) {
+						fieldsIn(al, depth+1, out)
+					}
+				}
+				return true
+			})
+		}
+		// emptiness tests of the two flows: len(X.Flow) ==/!= 0, len(..) > 0, X.Flow == nil …
+		type emp struct {
+			cond  ast.Expr
+			which *types.Var // fb or fa
+		}
+		var emps []emp
+		for _, g := range d.funcs {
+			ast.Inspect(g.Body, func(n ast.Node) bool {
+				be, ok := n.(*ast.BinaryExpr)
+				if !ok {
+					return true
+				}
+				switch be.Op {
+				case token.EQL, token.NEQ, token.LSS, token.LEQ, token.GTR, token.GEQ:
+				default:
+					return true
+				}
+				fs := map[types.Object]bool{}
+				fieldsIn(be, 0, fs)
+				if !fs[fFlow] {
+					return true
+				}
+				switch {
+				case fs[fb] && !fs[fa]:
+					emps = append(emps, emp{be, fb})
+				case fs[fa] && !fs[fb]:
+					emps = append(emps, emp{be, fa})
+				}
+				return true
+			})
+		}
+		// is the flow known empty after cond was decided? (len(x) == 0, !(len(x) != 0), !(len(x) > 0), len(x) < 1 …)
+		emptyKnown := func(st *flow.State, e emp) bool {
+			be := e.cond.(*ast.BinaryExpr)
+			k, neg := f.Atom(be)
+			v := st.Get(k)
+			if v == flow.Unknown {
+				return false
+			}
+			holds := (v == flow.True) != neg // truth of the comparison as written
+			lenLeft := false
+			if call, ok := ast.Unparen(be.X).(*ast.CallExpr); ok {
+				if b, ok := f.Callee(call).(*types.Builtin); ok && b.Name() == "len" {
+					lenLeft = true
+				}
+			}
+			cst := be.Y
+			if !lenLeft {
+				cst = be.X
+			}
+			tv := f.Info.Types[cst]
+			if f.Info.Types[be.X].IsNil() || f.Info.Types[be.Y].IsNil() {
+				return (be.Op == token.EQL) == holds
+			}
+			if tv.Value == nil {
+				return false
+			}
+			n := tv.Value.ExactString()
+			op := be.Op
+			if !lenLeft { // const OP len  →  len OP' const
+				op = map[token.Token]token.Token{token.LSS: token.GTR, token.GTR: token.LSS, token.LEQ: token.GEQ, token.GEQ: token.LEQ, token.EQL: token.EQL, token.NEQ: token.NEQ}[op]
+			}
+			switch {
+			case n == "0" && op == token.EQL, n == "0" && op == token.LEQ, n == "1" && op == token.LSS:
+				return holds
+			case n == "0" && op == token.NEQ, n == "0" && op == token.GTR, n == "1" && op == token.GEQ:
+				return !holds
+			}
+			return false
+		}
+		evStored := func(h *types.Var) string { return "ev:stored:" + h.Name() }
+		evEmpty := func(k *types.Var) string { return "ev:empty:" + k.Name() }
+		res := analyze(c, f, flow.Config{
+			Inline: inlineSamePkg(f),
+			OnCall: func(st *flow.State, call *ast.CallExpr, callee types.Object, deferred bool) {
+				if h := isStore(f, d, call); h != nil {
+					st.Set(evStored(h), flow.True)
+				}
+			},
+			AfterAssume: func(st *flow.State, cond ast.Expr, outcome bool) {
+				for _, e := range emps {
+					if emptyKnown(st, e) {
+						st.Set(evEmpty(e.which), flow.True)
+					}
+				}
+			},
+		})
+		if res == nil {
+			continue
+		}
+		for _, pr := range []struct {
+			name   string
+			key, h *types.Var
+			other  string
+		}{{"before", fb, hBefore, "after"}, {"after", fa, hAfter, "before"}} {
+			var bad *flow.Exit
+			n := 0
+			for _, ex := range res.Exits {
+				if ex.Kind != flow.ExitReturn {
+					continue
+				}
+				n++
+				if !ex.State.Is(evStored(pr.h), flow.True) && !ex.State.Is(evEmpty(pr.key), flow.True) && bad == nil {
+					bad = ex
+				}
+			}
+			var w []string
+			if bad != nil {
+				w = append([]string{"exit at " + pos(c, bad.At)}, witness(bad.State)...)
+			}
+			c.Check(bad == nil && n > 0, "R-C02-5", cons+"|"+pr.name+" pipeline built whenever its flow is not empty", pos(c, fd),
+				sprintf("all %d returning exits have stored the %s pipeline or found its flow empty", n, pr.name),
+				"the function that builds the global filter's pipelines can return without having built the "+pr.name+" pipeline although the "+pr.name+
+					" flow was not found empty (e.g. an early return taken for the "+pr.other+" pipeline also skips this one): a GlobalFilter configured with a "+pr.name+"Pipeline never runs its "+pr.name+" flow around the main flow", w...)
+		}
+	}
 }
